@@ -72,6 +72,9 @@ def truthy(st: State, v: V):
     if k == "dict":
         # non-emptiness of a dict is not derivable from the characteristic array alone
         return z3.And(v.t != 0, UF("dict_nonempty", z3.IntSort(), z3.ArraySort(sort_of(dict_tys(v.ty)[0]), z3.BoolSort()), z3.BoolSort())(v.t, st.dict_get(v)[0]))
+    if k in ("set", "setv"):
+        x = z3.Const("x!ne", sort_of(v.ty.args[0]))
+        return z3.Exists([x], z3.Select(set_parts(st, v), x))
     if k == "obj":
         cs = S.CLASSES.get(v.ty.name)
         if cs and cs.listlike and "__bool__" not in cs.properties:
@@ -171,6 +174,14 @@ def set_parts(st, v: V):
     if v.ty.kind == "set":
         return st.set_get(v)
     raise Unsupported("not a set: %s" % v.ty)
+
+
+def dict_merge(dom, val, d2, v2, kt, vt):
+    """dict.update as array combinators (no quantifiers, no lambdas)."""
+    or_ = z3.Or(z3.Bool("a"), z3.Bool("b")).decl()
+    x = z3.Const("x", sort_of(vt))
+    ite_ = z3.If(z3.Bool("c"), x, x).decl()
+    return z3.Map(or_, dom, d2), z3.Map(ite_, d2, v2, val)
 
 
 def mk_dictv(kt, vt, dom, val):
